@@ -342,7 +342,9 @@ class Base(_BaseClass):
             ends = ';'
         elif selectorattendonly:  # ]
             ends = ']'
-            if starttoken and self._tokenvalue(starttoken) == '[':
+            if starttoken and Base._prods.IDENT != starttoken[0] and \
+                    self._tokenvalue(starttoken) == '[':
+                # (not an IDENT "\5b " which has the value "[")
                 bracket = 1
         elif funcendonly:  # )
             ends = ')'
